@@ -232,6 +232,7 @@ fn run_chunk<V: Variant, W: Variant>(seed: u64, run: u64, key_index: usize, chun
         switch_exp: if nthreads == 1 { None } else { Some(*rng.pick(&[12u32, 14, 16])) },
         boundary: 64,
         threads,
+        align: None,
     };
     let (res, sched) = signers::execute::<V>(&plan, keys);
     if sched.free_running {
